@@ -211,6 +211,7 @@ class TriggerHandler:
         it had remembered is put back in its place.
         """
         seen = 0
+        by_hook = for_new_threads
         while isinstance(getattr(remembered, '__self__', None), TriggerHandler) and remembered.__self__.__shutdown \
                 and seen < 8:
             other = remembered.__self__
@@ -218,7 +219,11 @@ class TriggerHandler:
                 # it still has work pending on this thread (a span to close when the function returns): it needs the
                 # events of the thread until then, and leaves by itself afterwards
                 break
-            if for_new_threads or not hasattr(other.__start_thread, 'old'):
+            if by_hook or not hasattr(other.__start_thread, 'old'):
+                # it is on this thread through the hook for new threads: the thread was born with its function, and
+                # what comes before it is what came before it in the hook - also for all that follow (what they have
+                # remembered for this thread is from a time they came after it, and would lead round in a circle)
+                by_hook = True
                 remembered = other.__old_thread_trace
             else:
                 remembered = other.__start_thread.old
